@@ -175,7 +175,20 @@ def run(ctx):
     ok = len(s1) == 1 and len(s2) == 1 and len(s3) == 1 and all(ca.on_every_normal_path(x) for x in (s1[0], s2[0][0], s3[0][0])) and ca.dominates(s1[0], s2[0][0])
     vals = [src(k.value) for k in s2[0][1].keywords] + [src(a) for a in s2[0][1].args] if s2 else []
     vt = [src(a) for a in s3[0][1].args] if s3 else []
-    ctx.ob("R-ORDER", "C14.2", crs, "both the numpy and the torch global generators are seeded with the stored seed on every path", ok and vals == ["self.seed"] and vt == ["self.seed"], f"np.random.seed({vals}) torch.manual_seed({vt})")
+    # (the argument is the stored seed: `self.seed`, or the local it was stored from - compared on the path summaries)
+    from ..summ import summarise as _summ142
+    from ..canon import canon as _canon142
+
+    same_seed = True
+    for pa_ in [p_ for p_ in _summ142(crs.node) if p_.end != "raise"]:
+        v_ = pa_.env.get("self.seed")
+        args_ = []
+        for ef_ in pa_.effects:
+            if ef_[0] == "call" and isinstance(ef_[1], ast.Call) and (dotted(ef_[1].func) or "").endswith(("random.seed", "manual_seed")):
+                args_ += [a_ for a_ in ef_[1].args] + [k_.value for k_ in ef_[1].keywords]
+        if v_ is None or len(args_) != 2 or any(_canon142(a_) not in (_canon142(v_), "self.seed") for a_ in args_):
+            same_seed = False
+    ctx.ob("R-ORDER", "C14.2", crs, "both the numpy and the torch global generators are seeded with the stored seed on every path", ok and same_seed, f"np.random.seed({vals}) torch.manual_seed({vt})")
     bi = ctx.fn(tables.BASE + ".__init__")
     ba = FA(bi)
     cc = ba.find_calls("self.configure_random_seed")
